@@ -784,10 +784,14 @@ pub fn serialize_ops(mut ops: &[Op]) -> Result<Vec<u8>> {
 
 impl Content {
     pub fn from_ops(operations: Vec<Op>) -> Self {
-        let data = serialize_ops(&operations).unwrap();
-        Content {
+        Self::try_from_ops(operations).unwrap()
+    }
+    /// like `from_ops`, but operations that cannot be written (inline images) are an error, not a panic
+    pub fn try_from_ops(operations: Vec<Op>) -> Result<Self> {
+        let data = serialize_ops(&operations)?;
+        Ok(Content {
             parts: vec![Stream::new((), data)]
-        }
+        })
     }
 }
 
